@@ -391,8 +391,13 @@ structure PB where
 def buildPostings (bs : List PB) : List Posting :=
   bs.flatMap (fun b => postingBuild b.credit b.debit b.commodity b.quantity)
 
+/-- `strings.ReplaceAll(desc, "\"", "'")`: the journal syntax has no escape for a double quote -/
+def replaceQuotes (s : String) : String := String.ofList (s.toList.map (fun c => if c == '"' then '\'' else c))
+
+/-- `transaction.Builder{Date, Description, Postings, Targets}.Build()`: the built transaction stores the description
+with every double quote replaced by a single quote, so that `journal.Sort` orders by the text that is printed -/
 def mkTx (date : Int) (desc : String) (bs : List PB) (targets : Option (List Commodity) := none) : Directive :=
-  .tx { date := date, description := desc, postings := buildPostings bs, targets := targets }
+  .tx { date := date, description := replaceQuotes desc, postings := buildPostings bs, targets := targets }
 
 /-- `journal.Print(builder.Build())` over the directives in the order they were added -/
 def render (ds : List Directive) : String := JournalPrinter.print (Builder.ofList ds).build
